@@ -75,7 +75,10 @@ class Gen:
             self.next_held += 1
             n = rng.choice([1, 10, 100, 300, 4000])
             self.held[h] = n
-            self.ops.append({"ev": "hold", "o": o, "h": h, "d": [0, rng.randrange(251), n]})
+            op = {"ev": "hold", "o": o, "h": h, "d": [0, rng.randrange(251), n]}
+            if rng.random() < 0.3:
+                op["count"] = n + rng.choice([1, 100, 5000])
+            self.ops.append(op)
         elif x < 0.49 and self.held:
             h = rng.choice(list(self.held))
             what = rng.choice(["skip", "drop_suffix", "split", "clone", "push", "release", "release"])
@@ -292,6 +295,14 @@ def _label_ops(labels, rng):
             continue
         a = tlaval.parse("<<" + args + ">>")
         o = a[0]
+        if name == "DoHoldShort":
+            got = {0: 0, 1: rng.choice([1, 64])}[a[2]]
+            ops.append({"ev": "hold", "o": o, "h": sum(1 for x in ops if x["ev"] == "hold") + 1,
+                        "d": [0, rng.randrange(251), got], "count": rng.choice([300, 5000])})
+            continue
+        if name == "DoSwapArena":
+            ops.append({"ev": "swap_arena", "o": o, "p": a[1]})
+            continue
         if name in ("DoPush", "DoPushAnchored", "DoHold"):
             n = rng.choice(SCALE[a[1]])
             d = [0, pos.get(o, 0) % 251, n]
@@ -342,7 +353,13 @@ def _label_ops(labels, rng):
 def run_design(res, work, tier, seed):
     os.makedirs(work, exist_ok=True)
     rng = random.Random(seed * 7919 + 33)
-    plans = [(1, 4), (2, 4)] if tier == "quick" else [(1, 6), (2, 5)]
+    plans = [(1, 4), (2, 4)] if tier == "quick" else [(1, 5), (2, 5)]
+    # the arena's chunk-size policy with the REAL constants (assumption-only module: TLC evaluates the ASSUMEs)
+    ra = tlc.run_tlc("ArenaSizes", "ArenaSizes.cfg", os.path.join(work, "mc_sizes"), workers=1, timeout=300)
+    if ra["violated"] or "Assumption" in ra["out"]:
+        raise core.ToolError("ArenaSizes assumptions fail:\n" + ra["out"][-2000:])
+    res.data["notes"].append("ArenaSizes.tla: the transcribed find_hint_size with the real size sequence satisfies the crate's unit "
+                             "expectations and hint >= len / strict growth below the cap / sticky cap on a grid of lengths and capacities")
     for objs, budget in plans:
         r, consts = _mc_design(res, work, objs, budget)
         if r["violated"]:
